@@ -19,6 +19,10 @@ def parseArg (w : String) : Option Arg :=
     | 'n' => some Arg.null
     | 's' => (parseBytes? r).map fun bs => Arg.str (charsOfBytes bs ++ [NUL])
     | 'u' => (parseBytes? r).map fun bs => Arg.str (charsOfBytes bs)
+    -- round 3: the pointer argument of `%n` (slot number k of the harness), a wide string (wchar_t = 4 bytes, LE)
+    | 'N' => r.toNat?.map fun k => Arg.ptr (BitVec.ofNat 64 k)
+    | 'w' => (parseBytes? r).map fun bs =>
+        Arg.str ((charsOfBytes bs).flatMap (fun c => [c, NUL, NUL, NUL]) ++ [NUL, NUL, NUL, NUL])
     | _ => none
   | _ => none
 
@@ -31,9 +35,27 @@ def showOutcome : Outcome → String
   | .unsupported => "unsupported"
   | .diverged => "diverged"
 
-def stepLine (_ : Unit) (line : String) : Unit × String :=
-  let r : Option String :=
-    match words line with
+def showOutcomeN : OutcomeN → String
+  | .done out pc st =>
+    showRes pc out ++ String.join (st.map fun s =>
+      " n" ++ toString s.addr.toNat ++ ":" ++ toString s.size ++ ":" ++ toString s.val)
+  | .fault => "fault"
+  | .badarg => "badarg"
+  | .unsupported => "unsupported"
+  | .diverged => "diverged"
+  | .intovf => "intovf"
+
+/-- what the model embeds of the code's constants (op `consts`) -/
+def constsLine : String :=
+  "PRINT_I_BUFF_SZ=" ++ toString PRINT_I_BUFF_SZ ++
+  " PRINT_S_NULL_STR=" ++ hexOfChars PRINT_S_NULL_STR ++
+  " ptr_digits=16 int_max=" ++ toString INT_MAX ++
+  " sizeof_pc=4 n_sizes=" ++ String.intercalate ","
+    ([Len.hh, .h, .l, .ll, .j, .z, .t, .none].map fun l => toString (nSize l)) ++
+  " ops_single_bits=1"
+
+def evalOp (ws : List String) : Option String :=
+    match ws with
     | op :: rest =>
       let (limit, rest) : Option Int × List String :=
         if op = "fd" || op = "fdv" || op = "sn" || op = "vsn" then (rest.head?.bind String.toInt?, rest.tail)
@@ -47,6 +69,8 @@ def stepLine (_ : Unit) (line : String) : Unit × String :=
         -- probes of finding C06-star-width-int-min (`*` width = INT_MIN): the model would go on with a
         -- width of 2^31 (star_width_int_min_witness); the line is not compared, do not build 2 GiB of padding
         | "pfmin" => pure "int-min-star"
+        -- round 3: the engine with `%n` and `int` arithmetic
+        | "pn" => pure (showOutcomeN (printfN fmt args))
         | "sp" | "spv" =>
           match vsprintf fmt args with
           | some (buf, ret) => pure (showRes ret buf)
@@ -84,6 +108,23 @@ def stepLine (_ : Unit) (line : String) : Unit × String :=
         | _ => none
       | _ => none
     | _ => none
+
+/-- `a / b / c` → [a, b, c] -/
+def splitSlash (ws : List String) : List (List String) :=
+  ws.foldr (fun w acc => if w = "/" then [] :: acc else
+    match acc with
+    | [] => [[w]]
+    | g :: gs => (w :: g) :: gs) [[]]
+
+def stepLine (_ : Unit) (line : String) : Unit × String :=
+  let r : Option String :=
+    match words line with
+    | ["consts"] => some constsLine
+    -- several calls in one op (one entry point after the other on the same process state)
+    | "seq" :: rest => ((splitSlash rest).mapM evalOp).map (String.intercalate " | ")
+    -- a call the harness made BEFORE main() (static-initialisation order); the model is a function: same answer
+    | "premain" :: _ :: rest => evalOp rest
+    | ws => evalOp ws
   ((), r.getD "bad-op")
 
 def main : IO Unit := run () stepLine
